@@ -7,6 +7,8 @@ mod app;
 mod cases;
 #[path = "../../conf/src/dut.rs"]
 pub mod dut;
+#[path = "../../conf/src/errlist.rs"]
+mod errlist;
 #[allow(clippy::all)]
 mod gen;
 #[path = "../../conf/src/rec.rs"]
